@@ -35,24 +35,45 @@ def run_shard_inproc(mod, ctx, indices, budget_s):
             ctx.canary("canary-crashed:" + repr(e)[:200], False)
     if hasattr(mod, "run_shard"):
         mod.run_shard(ctx)
-        return
-    t0 = time.time()
-    for idx in indices:
-        if time.time() - t0 > budget_s:
-            ctx.count("cases_skipped_by_deadline", 1)
-            continue
-        run_one(mod, ctx, idx)
+    else:
+        t0 = time.time()
+        for idx in indices:
+            if time.time() - t0 > budget_s:
+                ctx.count("cases_skipped_by_deadline", 1)
+                continue
+            run_one(mod, ctx, idx)
+    if hasattr(mod, "end_shard"):
+        ctx.idx = "end_shard"
+        mod.end_shard(ctx)
+
+
+class CaseTimeout(BaseException):
+    pass
+
+
+def _alarm(signum, frame):
+    raise CaseTimeout()
 
 
 def run_one(mod, ctx, idx):
+    """One case under a generous wall-clock watchdog; its firing is 'inconclusive', never a violation."""
+    import signal
     ctx.idx = idx
+    limit = mod.plan(ctx.tier).get("case_timeout_s", 300 if ctx.tier == "quick" else 1200)
+    old = signal.signal(signal.SIGALRM, _alarm)
+    signal.setitimer(signal.ITIMER_REAL, limit)
     try:
         mod.run_case(ctx, idx)
+    except CaseTimeout:
+        ctx.count("cases_hit_watchdog")
     except H.CaseSkip:
         ctx.count("cases_skipped_by_generator")
     except Exception as e:
         tb = traceback.format_exc()
         ctx.violation(H.exc_key(e), f"exception escaped case {idx}: {e!r}", {"traceback": tb[-3000:]})
+    finally:
+        signal.setitimer(signal.ITIMER_REAL, 0)
+        signal.signal(signal.SIGALRM, old)
 
 
 def child_main(args):
@@ -149,6 +170,8 @@ def report(mod, prop, tier, seed, merged, dead, nsh, wall):
         reasons.append("shards-lost:" + ";".join(f"{i}:{why[:200]}" for i, why in dead))
     if c.get("evaluations", 0) == 0:
         reasons.append("no-evaluations")
+    if c.get("cases_hit_watchdog", 0) > 0.1 * max(1, c.get("evaluations", 0)):
+        reasons.append("more than 10%% of cases hit the per-case watchdog (%d)" % c["cases_hit_watchdog"])
     cov = {
         "evaluations": int(c.get("evaluations", 0)),
         "distinct_nontrivial": len(merged["sigs"]),
@@ -244,6 +267,8 @@ def main(argv=None):
         mod = load(args.prop)
         ctx = H.Ctx(args.prop, args.tier, args.seed)
         run_one(mod, ctx, args.one)
+        if hasattr(mod, "end_shard"):
+            mod.end_shard(ctx)
         print(json.dumps(ctx.dump(), indent=1)[:6000])
         return 1 if ctx.violations else 0
     if args.shard:
